@@ -1849,6 +1849,24 @@ func (bc *Blockchain) AddBlock(block *block.Block) error {
 		if expectedH != block.Hash() {
 			return fmt.Errorf("invalid block: hash mismatch: expected %s, got %s", expectedH.StringLE(), block.Hash().StringLE())
 		}
+		// The header with this hash was verified with its own witness,
+		// the one that comes with the block is not covered by the hash.
+		if !bc.config.SkipBlockVerification {
+			known, err := bc.GetHeader(expectedH)
+			if err != nil {
+				return fmt.Errorf("invalid block: known header %s: %w", expectedH.StringLE(), err)
+			}
+			if !bytes.Equal(known.Script.InvocationScript, block.Script.InvocationScript) ||
+				!bytes.Equal(known.Script.VerificationScript, block.Script.VerificationScript) {
+				prev, err := bc.GetHeader(block.PrevHash)
+				if err != nil {
+					return fmt.Errorf("invalid block: previous header %s: %w", block.PrevHash.StringLE(), err)
+				}
+				if err = bc.verifyHeaderWitnesses(&block.Header, prev); err != nil {
+					return err
+				}
+			}
+		}
 	}
 	if !bc.config.SkipBlockVerification {
 		merkle := block.ComputeMerkleRoot()
